@@ -237,6 +237,9 @@ class ClassParser(BaseParser):
             #     option_list.append(parser.options)
 
             fields.update(parser.fields)
+            # references the base has not resolved yet are pending for this class as well
+            # (it may be used before its base ever is)
+            self.forward_refs.update(parser.forward_refs)
             annotations.update(parser.annotations)
             exclude_vars.update(parser.exclude_vars)
             alias_map.update(parser.field_alias_map)
